@@ -44,7 +44,7 @@ Alphabet(c) ==
   \cup (IF c.sd.custom THEN {Op("Preset", "")} ELSE {})
 
 Passive(op) == IsSetter(op) /\ op.arg \in {"nil", "uninit"}
-SrvRec(max, hrr) == [max |-> max, hrr |-> hrr, keys |-> 1, store |-> TRUE]
+SrvRec(max, hrr) == [max |-> max, hrr |-> hrr, keys |-> 1, store |-> TRUE, cookie |-> 0]
 CachedVers(c) == IF ~c.cached THEN 0 ELSE IF NegVers(SdTP, [max |-> c.srvmax]) = 772 THEN 13 ELSE 12
 StaticEnv(c) == [specT |-> SdT(c.sd), specP |-> SdP(c.sd), custom |-> c.sd.custom, skip |-> SdSkip(c.sd), omit |-> c.sd.omitpsk,
                   max |-> SdMax(c.sd), cacheVers |-> CachedVers(c), injVers |-> 0]
@@ -111,15 +111,26 @@ C19Parrots == { Sd("Chrome-100", FALSE, <<>>, FALSE, TRUE),                     
 PFeat == [sd \in C19Parrots |-> Feat(sd)]
 \* quick tier: the server keeps its tickets in a store (WrapSession/UnwrapSession, short labels); thorough tier: real
 \* ticket encryption under SetSessionTicketKeys.  keys = which store / which ticket key the server owns.
-C19Srvs == { s \in [max : {771, 772}, hrr : BOOLEAN, keys : {1, 2}, store : {~Deep}] : s.hrr => s.max = 772 }
+\* cookie > 0: the HelloRetryRequest also carries a cookie of that many bytes, which the client has to echo in a cookie
+\* extension the parrots do not have (handshake_client_tls13.go, uTLS section of processHelloRetryRequest)
+C19Srvs == { s \in [max : {771, 772}, hrr : BOOLEAN, keys : {1, 2}, store : {~Deep}, cookie : {0, 1, 32}] :
+               /\ s.hrr => s.max = 772
+               /\ s.cookie > 0 => (s.hrr /\ s.keys = 1) }
+\* how the application drives the connection (all three are documented uses of BuildHandshakeState: "should only be called
+\* explicitly to inspect/change fields"; SetClientRandom: "BuildHandshakeFirst() must be called before")
+C19Uses == {"hs", "build", "edit"}
+UseOps(u) == CASE u = "hs" -> HSop [] u = "build" -> <<Op("Build", "")>> \o HSop [] OTHER -> <<Op("Build", ""), Op("SetRandom", "")>> \o HSop
 C19Names == {"a.example", "b.example"}
-Cd(sd, name, srv, clock) == [spec |-> sd, name |-> name, srv |-> srv, clock |-> clock, feat |-> PFeat[sd],
-                             cache |-> "main", cfgcache |-> TRUE, ops |-> IF sd.custom THEN <<Op("Preset", "")>> \o HSop ELSE HSop, alias |-> <<>>, role |-> "conn", ctl |-> TRUE]
+Cd(sd, name, srv, clock, use) == [spec |-> sd, name |-> name, srv |-> srv, clock |-> clock, feat |-> PFeat[sd], use |-> use,
+                             cache |-> "main", cfgcache |-> TRUE, ops |-> (IF sd.custom THEN <<Op("Preset", "")>> ELSE <<>>) \o UseOps(use),
+                             alias |-> <<>>, role |-> "conn", ctl |-> TRUE]
 C19Space(h) ==
-  CASE Len(h) = 0 -> { Cd(sd, "a.example", srv, 0) : sd \in C19Parrots, srv \in {s \in C19Srvs : s.keys = 1} }
-    [] Len(h) = 1 -> { Cd(sd, n, srv, c) : sd \in C19Parrots, n \in C19Names, srv \in C19Srvs, c \in {0, 8} }
+  CASE Len(h) = 0 -> { Cd(sd, "a.example", srv, 0, "hs") : sd \in C19Parrots, srv \in {s \in C19Srvs : s.keys = 1 /\ s.cookie # 1} }
+    \* the second connection is driven in all three ways when it can meet the first one's session (same parrot, same name)
+    [] Len(h) = 1 -> { Cd(sd, n, srv, c, "hs") : sd \in C19Parrots, n \in C19Names, srv \in C19Srvs, c \in {0, 8} }
+                     \cup { Cd(h[1].spec, h[1].name, srv, c, u) : srv \in C19Srvs, c \in {0, 8}, u \in {"build", "edit"} }
     [] OTHER -> IF Deep
-                THEN { Cd(sd, n, srv, h[2].clock) : sd \in {h[1].spec, h[2].spec}, n \in {h[1].name, h[2].name}, srv \in {h[1].srv, h[2].srv} }
+                THEN { Cd(sd, n, srv, h[2].clock, h[2].use) : sd \in {h[1].spec, h[2].spec}, n \in {h[1].name, h[2].name}, srv \in {h[1].srv, h[2].srv} }
                 ELSE { h[2], [h[1] EXCEPT !.clock = h[2].clock] }
 VARIABLES mA, mR      \* C19 model state as coded / repaired: [cache, outs, offs, pre]
 C19M0 == [cache |-> [n \in C19Names |-> NoEntry], outs |-> <<>>, offs |-> <<>>, pre |-> <<>>]
